@@ -16,7 +16,7 @@ from decimal import Decimal as D
 ID = "C19"
 LEVEL = "exploration"
 TECHNIQUE = "save/load differential at the HTTP boundary and on the reconstructed session state, over generated session histories and four restore paths"
-RULE = ("histories = start in {0,1,3,2.5} x dt in {1,.5,.25,.1} x 1-10 steps x per step {constants, points, {}, no body} x compress in {False, True} x "
+RULE = ("histories = start in {0,1,3,2.5} x dt in {1,.5,.25,.1} x 1-10 steps x per step {constants, points, {}, no body, run-steps(2|3) sharing one settings object} x compress in {False, True} x "
         "restore path in {lazy restore after dropping the instance, /save-state + /load-state, timeout + lazy restore, new server on the directory}; "
         "plus the adapter layer directly (save_instance / load_instance on states of Python-API sessions with explicit start and dt). "
         "distinct_nontrivial = distinct (start, dt, settings pattern, compress, path) combinations with at least 2 steps and at least one "
@@ -35,7 +35,7 @@ def gen_cases(tier, seed):
         start = rng.choice(["0", "1", "3", "2.5"])
         dt = rng.choice(["1", "0.5", "0.25", "0.1"])
         steps = rng.randint(1, 10)
-        pattern = [rng.choice(["const", "points", "empty", "nobody", "const"]) for _ in range(steps)]
+        pattern = [rng.choice(["const", "points", "empty", "nobody", "const", "steps2const", "steps3empty", "steps2points"]) for _ in range(steps)]
         cases.append(dict(layer="rest", start=start, dt=dt, pattern=pattern, compress=bool(i % 2), path=PATHS[(i // 2) % 4], vseed=rng.randrange(10 ** 6)))
     # histories on which even the compressed format loses nothing (start=1, dt=1, the same constant on every step):
     # the compressed mode stays checkable there although its general lossiness is a known finding
@@ -127,7 +127,7 @@ def run_rest(case, counters):
     from vlib import srv
     rng = random.Random(case["vseed"])
     start, dt = float(case["start"]), float(case["dt"])
-    stop = float(D(case["start"]) + 14 * D(case["dt"]))
+    stop = float(D(case["start"]) + 40 * D(case["dt"]))
     tmp = tempfile.mkdtemp(prefix="c19_", dir=".")
     clock = srv.Clock()
     apps = []
@@ -140,10 +140,18 @@ def run_rest(case, counters):
             to = {"seconds": 50} if case["path"] == "timeout" else {"hours": 5}
             iid = json.loads(c.post("/start-instance", json={"timeout": to}).get_data(as_text=True))["instance_uuid"]
             r = c.post("/%s/begin-session" % iid, json={"scenario_managers": [srv.MG], "scenarios": [srv.SC], "equations": list(srv.EQS)})
+            nsteps_done = 0
             for k, kind in enumerate(case["pattern"]):
                 clock.advance(seconds=1)
-                st = settings_for(kind, rng)
-                r = c.post("/%s/run-step" % iid, json={"settings": st}) if st is not None else c.post("/%s/run-step" % iid)
+                nsteps_done += 1
+                if kind.startswith("steps"):
+                    # one settings object shared by several steps of a run-steps request
+                    st = settings_for({"const": "const", "empty": "empty", "points": "points"}[kind[6:]], rng)
+                    r = c.post("/%s/run-steps" % iid, json={"numberSteps": int(kind[5]), "settings": st})
+                    nsteps_done += int(kind[5]) - 1
+                else:
+                    st = settings_for(kind, rng)
+                    r = c.post("/%s/run-step" % iid, json={"settings": st}) if st is not None else c.post("/%s/run-step" % iid)
                 if r.status_code != 200:
                     return dict(kind="run-step-failed-with-adapter", step=k, settings_kind=kind, status=r.status_code, body=r.get_data(as_text=True)[:200])
             before_results = json.loads(c.get("/%s/session-results" % iid).get_data(as_text=True))
@@ -196,7 +204,7 @@ def run_rest(case, counters):
                 js = json.loads(r.get_data(as_text=True))
                 if "msg" not in js:
                     ts = [float(t) for t in js[srv.MG][srv.SC]["stock"]]
-                    exp_t = float(D(case["start"]) + (len(case["pattern"]) + (0 if body is not None else 1)) * D(case["dt"]))
+                    exp_t = float(D(case["start"]) + (nsteps_done + (0 if body is not None else 1)) * D(case["dt"]))
                     if len(ts) != 1 or abs(ts[0] - exp_t) > 1e-9:
                         return dict(kind="clock-after-restore", got=ts, expected=exp_t)
         return None
